@@ -128,7 +128,7 @@ def gen_grid(tape):
     if tape.coin(0.04, "big_grid"):
         nr, nc = tape.randint(20, 60, "nrows_big"), tape.randint(20, 80, "ncols_big")
     rs = np.random.RandomState(tape.subseed("values"))
-    mag = tape.weighted([("moderate", 5), ("ints", 2), ("mixed", 2), ("huge", 1), ("tiny", 1), ("repeats", 2)], "magnitude")
+    mag = tape.weighted([("moderate", 5), ("ints", 2), ("mixed", 2), ("huge", 1), ("tiny", 1), ("repeats", 2), ("extreme", 1)], "magnitude")
     if mag == "moderate":
         vals = rs.uniform(-1000, 1000, (nr, nc))
     elif mag == "ints":
@@ -139,6 +139,11 @@ def gen_grid(tape):
         vals = rs.uniform(-1, 1, (nr, nc)) * 10.0 ** rs.randint(25, 37, (nr, nc))
     elif mag == "tiny":
         vals = rs.uniform(-1, 1, (nr, nc)) * 10.0 ** rs.randint(-40, -20, (nr, nc))
+    elif mag == "extreme":
+        # finite values beyond the blank sentinel's magnitude on the NEGATIVE side (only >= +1.70141e38 is blank)
+        vals = rs.uniform(-1, 1, (nr, nc)) * 10.0 ** rs.randint(30, 38, (nr, nc))
+        vals[rs.randint(0, nr), rs.randint(0, nc)] = -rs.choice([1.70141e38, 2.5e38, 1e300, 1.797e308])
+        vals = np.where(vals >= 1.7e38, 1e37, vals)
     else:
         pool = rs.uniform(-100, 100, 3)
         vals = pool[rs.randint(0, 3, (nr, nc))]
@@ -172,6 +177,8 @@ def gen_grid(tape):
     g.eol = tape.pick(["\n", "\n", "\r\n"], "eol")
     g.trailer = tape.pick(["", "", "\n", "\n\n", "  \n"], "trailer")
     dtype = tape.pick(["float64", "float32"], "dtype")
+    if mag == "extreme":
+        dtype = "float64"  # beyond float32's range
     desc = {"shape": [nr, nc], "magnitude": mag, "format": style, "blanks": len(blanks), "sep": g.sep, "eol": g.eol, "dtype": dtype}
     return g, dtype, desc
 
